@@ -339,6 +339,77 @@ def line_end_guards(ctx, f):
     ctx.floor('zone padding expressions', len(zones), 1)
 
 
+def layout_by_items(ctx):
+    """The plain branch of _exec_print, interpreted on every short sequence
+    of string items, commas and semicolons, must print what the statement
+    means: items in order, a comma pads to the next 14-column zone, a
+    semicolon adds nothing, and a line break follows unless the statement
+    ends with a separator.  Strings only, so no number formatting is
+    involved; the handler computes with concrete lengths."""
+    import itertools
+    from .. import vmsim
+    repo = ctx.repo
+    rule = 'C17.plain-print-layout-by-item-sequence'
+    ctx.rule(rule, 'TerminalDevice._exec_print (interpreted from the source '
+             'on the tag protocol gen_print_stmt emits) prints, for every '
+             'sequence of up to 3 items drawn from {"ab", "", a '
+             '14-character string, comma, semicolon}, exactly: the strings '
+             'in order, blanks up to the next multiple of 14 for each comma '
+             '(also a trailing one), nothing for a semicolon, and CR LF '
+             'unless the last item is a separator')
+    sim = vmsim.VmSim(repo)
+    vmsim.install_primitives(sim)
+    c = sim.cell
+    alphabet = ['ab', '', 'x' * 14, ',', ';']
+    f = repo.func('qvm.machine', 'TerminalDevice._exec_print')
+    n = 0
+    bad = None
+    undecided = 0
+    for k in (0, 1, 2, 3):
+        for items in itertools.product(alphabet, repeat=k):
+            cells = []
+            for it in items:
+                if it == ';':
+                    cells.append(c('INTEGER', 1))
+                elif it == ',':
+                    cells.append(c('INTEGER', 2))
+                else:
+                    cells.append(c('INTEGER', 0))
+                    cells.append(c('STRING', it))
+            cells.append(c('INTEGER', len(cells)))
+            sim.io_args = []
+            outs = sim.run_device('terminal', 'print', cells)
+            args = list(sim.io_args)
+            del sim.io_args
+            if len(outs) != 1 or outs[0].kind != 'ok' or any(
+                    not isinstance(a[1][0], str) for a in args if a[1]):
+                undecided += 1
+                continue
+            n += 1
+            got = ''.join(a[1][0] for a in args
+                          if a[0] == 'terminal_print' and a[1])
+            want = ''
+            for it in items:
+                if it == ',':
+                    want += ' ' * (14 - len(want) % 14)
+                elif it != ';':
+                    want += it
+            if not items or items[-1] not in (',', ';'):
+                want += '\r\n'
+            if got != want and bad is None:
+                bad = (items, got, want)
+    ctx.instance(rule, f'{f.file}:TerminalDevice._exec_print:plain',
+                 sample={'sequences': n, 'undecided': undecided})
+    ctx.floor('PRINT item sequences interpreted', n, 100)
+    if bad is not None:
+        items, got, want = bad
+        ctx.finding(rule, f'{f.file}:TerminalDevice._exec_print:plain',
+                    f'PRINT of the items {list(items)} writes {got!r}; the '
+                    f'statement means {want!r} (zones of 14 columns, no '
+                    f'line break after a trailing separator)', f.file,
+                    f.line)
+
+
 def run(ctx):
     ctx.clauses = [
         'tag protocol agreement between gen_print_stmt and _exec_print',
@@ -351,6 +422,7 @@ def run(ctx):
     f = tag_protocol(ctx)
     purity(ctx, f)
     line_end_guards(ctx, f)
+    layout_by_items(ctx)
     from .. import gensim
     gensim.check_print_items(ctx, 'C17')
     return ('Emitter/consumer agreement of the PRINT argument protocol '
